@@ -566,7 +566,8 @@ impl<W: Word, B: AsRef<[W]> + AsMut<[W]>> BitFieldSliceMut<W> for BitFieldVec<W,
         );
         // Reduce len to the elements available in both vectors
         let len = Ord::min(Ord::min(len, dst.len - to), self.len - from);
-        if len == 0 {
+        if len == 0 || self.bit_width == 0 {
+            // Nothing to copy (with bit width zero all values are zero)
             return;
         }
         let bit_width = Ord::min(self.bit_width, dst.bit_width);
